@@ -576,6 +576,7 @@ class Program:
             if all(any("builtins.TypeError" in names for names in P.abandoned(p)) for p in fallback):
                 out.add(q)
         P._cache.clear()  # paths computed before the helper set was known are discarded
+        getattr(P, "_scache", {}).clear()
         self._safe_sub = out
         return out
 
